@@ -605,11 +605,12 @@ _RELATIONS = [(0, 1, 2, 3), (0, 1, 1, 2), (0, 2, 1, 3), (0, 3, 1, 2), (0, 2, 0, 
 
 def _geom_boundary_cases(rng, thr_per_case):
     """all 81 type pairs on every relation of the extents (disjoint, touching, partial, nested, equal, sharing an
-    end, degenerate), the relation applied to the time axis and (independently chosen) to the frequency axis"""
+    end, degenerate): every relation on the time axis with a drawn one on the frequency axis, and - the sibling -
+    every relation on the frequency axis with a drawn one on the time axis"""
     for t1 in gen_geom.TYPES:
         for t2 in gen_geom.TYPES:
-            for rel_t in _RELATIONS:
-                rel_f = rng.choice(_RELATIONS)
+            for rel_t, rel_f in ([(x, rng.choice(_RELATIONS)) for x in _RELATIONS]
+                                 + [(rng.choice(_RELATIONS), x) for x in _RELATIONS]):
                 g1 = geom_with_extent(t1, rel_t[0], rel_t[1], rel_f[0], rel_f[1])
                 g2 = geom_with_extent(t2, rel_t[2], rel_t[3], rel_f[2], rel_f[3])
                 for order in ((g1, g2), (g2, g1)):
@@ -805,22 +806,27 @@ def _big_cases(sizes):
 
 
 # ---------------------------------------------------------------- histories (HISTORIES.md 1)
-_SLOT_EXT = {"A": (1, 2, 1, 2), "B": (7, 8, 5, 6), "C": ("3/2", 3, "3/2", 3), "D": (5, 6, 0, 1)}
+# contents an object is moved between: relative to the reference box / the clip [2, 5] (x [2, 5] Hz) A reaches in
+# over the start only, B over the end only, C lies after it, D before it, E covers it - so every answer depends on
+# both ends of the extent, and consecutive contents of an order have different answers
+_SLOT_EXT = {"A": (1, 3, 1, 3), "B": (4, 7, 4, 7), "C": (6, 7, 6, 7), "D": (0, 1, 0, 1), "E": (0, 8, 0, 8)}
+_SLOT_ORDERS = [("A", "C", "B"), ("D", "A", "C"), ("B", "D", "E")]
+_FIRST_TOUCHES = ["compute_bounds", "compute_bounds_poison", "shapely", "repr", "dump", "temporal_self", "in_clip_self"]
 
 
 def _session_templates():
     """seeded C12-7 and its whole class, enumerated: every geometry type x every way of changing an object
     (GEOM_CHANGES in place, GEOM_DERIVES into a second object) x every first use (each predicate, compute_bounds,
-    the shapely conversion ...): use, move, ask again - in both directions (overlapping -> disjoint and back)"""
-    ref = geom_with_extent("BoundingBox", "3/2", "5/2", 1, 2)
+    the shapely conversion ...): use, move, ask again - in three orders of contents"""
+    ref = geom_with_extent("BoundingBox", 2, 5, 2, 5)
     first_uses = [[{"do": "temporal", "a": 0, "b": 1, "abs": None, "rel": None}],
                   [{"do": "frequency", "a": 1, "b": 0, "abs": None, "rel": None}],
-                  [{"do": "in_clip", "a": 0, "clip": 0, "min": None}]] + [[{"do": "touch", "slot": 0, "what": w}] for w in S.TOUCHES]
+                  [{"do": "in_clip", "a": 0, "clip": 0, "min": None}]] + [[{"do": "touch", "slot": 0, "what": w}] for w in _FIRST_TOUCHES]
     k = 0
     for t in gen_geom.TYPES:
         for how in S.GEOM_CHANGES + ["derive:" + h for h in S.GEOM_DERIVES]:
             for fu in first_uses:
-                for order in (("A", "B", "C"), ("B", "A", "D")):
+                for order in _SLOT_ORDERS:
                     k += 1
                     g = [geom_with_extent(t, *_SLOT_EXT[x]) for x in order]
                     if any(x is None for x in g):
@@ -828,7 +834,7 @@ def _session_templates():
                     build = S.GEOM_BUILDS[k % len(S.GEOM_BUILDS)]
                     steps = [{"do": "set", "slot": 0, "g": g[0], "how": "new", "build": build},
                              {"do": "set", "slot": 1, "g": ref, "how": "new"},
-                             {"do": "clip", "slot": 0, "start": "0", "end": "5", "how": "new"}] + [dict(x) for x in fu]
+                             {"do": "clip", "slot": 0, "start": "2", "end": "5", "how": "new"}] + [dict(x) for x in fu]
                     slot = 0
                     for j in (1, 2):
                         if how.startswith("derive:"):
@@ -841,7 +847,7 @@ def _session_templates():
                         qs = [{"do": "temporal", "a": slot, "b": 1, "abs": None, "rel": None, "form": form},
                               {"do": "temporal", "a": 1, "b": slot, "abs": None, "rel": "1/2", "form": form},
                               {"do": "frequency", "a": slot, "b": 1, "abs": None, "rel": None},
-                              {"do": "frequency", "a": 1, "b": slot, "abs": "1/4", "rel": None, "form": form},
+                              {"do": "frequency", "a": 1, "b": slot, "abs": "1/2", "rel": None, "form": form},
                               {"do": "in_clip", "a": slot, "clip": 0, "min": None},
                               {"do": "in_clip", "a": slot, "clip": 0, "min": "1/2", "form": form}]
                         if old is not None:      # the object the copy was derived from still answers for its own content
@@ -957,7 +963,7 @@ def _random_sessions(rng, n):
 def _stage_histories(ctx):
     hs = list(_session_templates()) + list(_clip_session_templates()) + list(_option_session_templates())
     ctx.exhaustive["histories"] = (f"9 types x {len(S.GEOM_CHANGES)} in-place changes + {len(S.GEOM_DERIVES)} derivations x "
-                                   f"{3 + len(S.TOUCHES)} first uses x 2 directions; 5 types x {len(S.CLIP_HOWS)} clip changes x "
+                                   f"{3 + len(_FIRST_TOUCHES)} first uses x {len(_SLOT_ORDERS)} orders of contents; 5 types x {len(S.CLIP_HOWS)} clip changes x "
                                    f"{len(S.CLIP_NUMS)} number types; option sequences on 9 types and 4 interval containers")
     hs += list(_random_sessions(ctx.rng, ctx.budget(150, 2500)))
     for h in hs:
@@ -992,6 +998,94 @@ def _stage_construction(ctx):
     for opn, cs in by_op.items():
         ctx.run_cases(OPS[opn], cs)
     ctx.exhaustive["sizes"] = "5 multi-vertex types x {17, 257, 1025} vertices / parts x extreme at the start / middle / end"
+
+
+# ---------------------------------------------------------------- tolerance-sized offsets, lattices (HISTORIES.md 4)
+_MAGNITUDES = [1e-3, 1.0, 1e3, 1e6]
+_EPSILONS = [1e-6, 1e-7, 1e-8, 1e-9, 1e-10, 1e-11, 1e-12]
+
+
+def _tolerance_cases(rng):
+    """every comparison the property pins, missed / met by a relative 1e-6 .. 1e-12 of the threshold, at small and
+    large magnitudes: thousands of ulps, far outside the rounding band, so the exact answer is demanded (an
+    `isclose`, an epsilon added to either side, a rounded operand all show here).  Yields (op, case)."""
+    for M in _MAGNITUDES:
+        for eps in _EPSILONS:
+            for sign in (-1.0, 1.0):
+                s1 = M * rng.uniform(0.5, 4)
+                w = M * rng.uniform(0.5, 2)
+                e1 = s1 + w
+                x = w * rng.uniform(0.3, 0.9)               # the intersection: comparable to the widths
+                s2 = e1 - x
+                e2 = s2 + w * rng.choice([1.5, 3.0])
+                xx = float(min(Fraction(e1), Fraction(e2)) - max(Fraction(s1), Fraction(s2)))
+                i1, i2 = [rat(s1), rat(e1)], [rat(s2), rat(e2)]
+                a = xx * (1 + sign * eps)
+                swap = rng.random() < 0.5
+                c = {"i1": i2 if swap else i1, "i2": i1 if swap else i2, "abs": rat(a), "rel": None}
+                yield "intervals_overlap_f64", c
+                # relative: the second interval placed so that the intersection is r * (1 -/+ eps) of the shorter width
+                r = rng.choice([0.25, 0.3, 0.5, 0.7, 0.9])
+                w1 = float(Fraction(e1) - Fraction(s1))
+                s2r = e1 - r * w1 * (1 - sign * eps)
+                c2 = {"i1": i1, "i2": [rat(s2r), rat(s2r + 2 * w1)], "abs": None, "rel": rat(r)}
+                if swap:
+                    c2["i1"], c2["i2"] = c2["i2"], c2["i1"]
+                yield "intervals_overlap_f64", c2
+                # the same through the geometry predicates (time axis: intervals; frequency axis: boxes; magnitudes
+                # of the frequency axis stay below MAX_FREQUENCY)
+                if M <= 1e3:
+                    lo, hi = rng.uniform(100, 200), rng.uniform(300, 400)
+                    g1 = {"type": "BoundingBox", "coordinates": [rat(s1), rat(lo), rat(e1), rat(hi)]}
+                    g2 = {"type": rng.choice(["TimeInterval", "BoundingBox"]), "coordinates": None}
+                    if g2["type"] == "TimeInterval":
+                        g2["coordinates"] = [rat(s2), rat(e2)]
+                    else:
+                        g2["coordinates"] = [rat(s2), rat(lo), rat(e2), rat(hi)]
+                    yield "temporal_f64", {"g1": g1, "g2": g2, "abs": rat(a), "rel": None}
+                    yield "temporal_f64", {"g1": g2, "g2": g1, "abs": rat(a), "rel": None}
+                    f1 = {"type": "BoundingBox", "coordinates": ["1", rat(s1), "2", rat(e1)]}
+                    f2 = {"type": "BoundingBox", "coordinates": ["0", rat(s2), "3", rat(e2)]}
+                    yield "frequency_f64", {"g1": f1, "g2": f2, "abs": rat(a), "rel": None}
+                    f2r = {"type": "BoundingBox", "coordinates": ["0", rat(s2r), "3", rat(s2r + 2 * w1)]}
+                    yield "frequency_f64", {"g1": f2r, "g2": f1, "abs": None, "rel": rat(r)}
+                # is_in_clip: the event ends a relative eps after / before clip start + m, or starts as much
+                # before / after clip end - m
+                cs, m = M * rng.uniform(1, 3), M * rng.choice([0.0, 0.1, 0.5])
+                ce = cs + M * rng.uniform(2, 4)
+                edge1, edge2 = float(Fraction(cs) + Fraction(m)), float(Fraction(ce) - Fraction(m))
+                ty = rng.choice(["TimeInterval", "BoundingBox"])
+
+                def geom(s, e, ty=ty):
+                    if ty == "TimeInterval":
+                        return {"type": ty, "coordinates": [rat(s), rat(e)]}
+                    return {"type": ty, "coordinates": [rat(s), "100", rat(e), "200"]}
+                end = edge1 * (1 + sign * eps)
+                yield "is_in_clip_f64", {"g": geom(max(0.0, end - M), end), "start": rat(cs), "end": rat(ce), "min": rat(m)}
+                start = edge2 * (1 + sign * eps)
+                yield "is_in_clip_f64", {"g": geom(start, start + M), "start": rat(cs), "end": rat(ce), "min": rat(m)}
+                t = rng.choice([end, start])
+                yield "is_in_clip_f64", {"g": {"type": "TimeStamp", "coordinates": rat(t)}, "start": rat(cs), "end": rat(ce),
+                                         "min": rat(m)}
+
+
+def _lattice_cases(stride, offset):
+    """non-dyadic lattices: every point k/100 of the axis against every `stride`-th point j/100 (all of them in
+    thorough): interval ends, thresholds that are ties in decimal arithmetic, clip edges start + m"""
+    pts = [k / 100 for k in range(101)]
+    for k in range(101):
+        for j in range(offset % stride, 101, stride):
+            # [0, 1] against [j/100, 2] with the decimal tie (100 - j)/100 as threshold, [0, k/100] against [j/100, 1]
+            yield "intervals_overlap_f64", {"i1": ["0", "1"], "i2": [rat(pts[j]), "2"], "abs": rat((100 - j) / 100), "rel": None}
+            yield "intervals_overlap_f64", {"i1": ["0", rat(pts[k])], "i2": [rat(pts[j]), "1"],
+                                            "abs": rat(max(k - j, 0) / 100), "rel": None}
+            yield "intervals_overlap_f64", {"i1": [rat(pts[j]), rat(pts[j] + pts[k])], "i2": ["0", "3"], "abs": None,
+                                            "rel": rat(pts[k])}
+            # clip [k/100, 3] with minimum j/100: the event ends exactly on (k + j)/100
+            yield "is_in_clip_f64", {"g": {"type": "TimeInterval", "coordinates": ["0", rat((k + j) / 100)]},
+                                     "start": rat(pts[k]), "end": "3", "min": rat(pts[j])}
+            yield "is_in_clip_f64", {"g": {"type": "TimeStamp", "coordinates": rat(3 - (k + j) / 100)},
+                                     "start": rat(pts[k]), "end": "3", "min": rat(pts[j])}
 
 
 # ---------------------------------------------------------------- arbitrary binary64 inputs
@@ -1126,7 +1220,7 @@ def _correspondence(ctx):
     ctx.run_cases(OPS["intervals_overlap"], _random_interval_cases(ctx.rng, ctx.budget(4000, 60000)))
     pairs = list(_geom_pair_cases(ctx.rng, ctx.budget(3, 40)))
     pairs += list(_geom_boundary_cases(ctx.rng, ctx.budget(2, 6)))
-    ctx.exhaustive["geometry pairs"] = "81 type pairs x 12 extent relations x both orders (time axis; frequency relation drawn)"
+    ctx.exhaustive["geometry pairs"] = "81 type pairs x 12 extent relations x both orders, enumerated on the time axis and on the frequency axis (the other axis drawn)"
     ctx.run_cases(OPS["temporal"], pairs)
     ctx.run_cases(OPS["frequency"], pairs)
     ctx.run_cases(OPS["is_in_clip"], _clip_cases(ctx.rng, ctx.budget(40, 600)))
@@ -1140,6 +1234,23 @@ def _floats(ctx):
     _run_float(ctx, OPS["temporal_f64"], pairs)
     _run_float(ctx, OPS["frequency_f64"], pairs)
     _run_float(ctx, OPS["is_in_clip_f64"], _float_clip_cases(ctx.rng, ctx.budget(1000, 12000)))
+    _boundaries(ctx, ctx.budget(2, 6), 1 if ctx.thorough() else 6)
+
+
+def _boundaries(ctx, reps, stride):
+    by_op = {}
+    for _ in range(reps):
+        for opn, c in _tolerance_cases(ctx.rng):
+            by_op.setdefault(opn, []).append(c)
+    ctx.tally("tolerance-sized offsets (1e-6 .. 1e-12 relative, magnitudes 1e-3 .. 1e6)", sum(len(v) for v in by_op.values()))
+    n0 = sum(len(v) for v in by_op.values())
+    for opn, c in _lattice_cases(stride, ctx.seed):
+        by_op.setdefault(opn, []).append(c)
+    ctx.tally("lattice points k/100", sum(len(v) for v in by_op.values()) - n0)
+    ctx.exhaustive["non-dyadic lattice"] = (f"end points / thresholds / clip edges k/100, k = 0..100, against j/100 for every "
+                                            f"{stride}-th j (offset = seed)")
+    for opn, cs in by_op.items():
+        _run_float(ctx, OPS[opn], cs)
 
 
 def search(ctx, failures):
